@@ -356,6 +356,8 @@ fn palettes() -> Vec<Vec<Val>> {
         vec![keyed, range_of(1, 1), Val::Int(0), sym("ka")],
         // externals: only a host can provide them (SimpleGarnishData has no apply hook of its own: the trait default answers)
         vec![Val::External(1), Val::Int(5), Val::External(2), Val::Int(7)],
+        // numbers without an order (only arithmetic produces them: `--2.5 ** 0.5`), an infinite one
+        vec![Val::Float(f64::NAN.to_bits()), Val::Int(1), Val::Float(f64::NAN.to_bits()), Val::Float(f64::INFINITY.to_bits())],
     ]
 }
 
